@@ -5,7 +5,7 @@ import math
 from vf import common
 
 common.use_repo()
-from pydsol.core.interfaces import StatEvents                     # noqa: E402
+from pydsol.core.interfaces import StatEvents, ReplicationInterface  # noqa: E402
 from pydsol.core.pubsub import EventType, EventProducer, EventListener, TimedEvent  # noqa: E402
 from pydsol.core.statistics import (SimCounter, SimTally, SimWeightedTally,  # noqa: E402
                                     SimPersistent, Counter, Tally, WeightedTally,
@@ -204,6 +204,19 @@ class StatsExt:
                 ps = cls("plain%d" % j)
                 model.add_output_statistic("plain%d" % j, ps)
                 model.plain.append(ps)
+        wo = runner.prog.get("warmup_obs")
+        if wo:
+            # the model subscribes to the warm-up notification AFTER creating its
+            # statistics and registers observations from inside notify (e.g. to
+            # re-seed a persistent after the reset): they count, the reset came first
+            ext = self
+
+            class _AtWarmup(EventListener):
+                def notify(l, event):
+                    for i, v, w in wo:
+                        ext.observe(runner, model, i % len(ext.spec), v, w)
+            model._at_warmup = _AtWarmup()
+            sim.add_listener(ReplicationInterface.WARMUP_EVENT, model._at_warmup)
         model.streams = [MersenneTwister(s) for s in self.case.get("stream_seeds", [])]
 
     def perform(self, runner, model, owner, idx, a):
